@@ -652,4 +652,326 @@ theorem put_sty (pol : WidePolicy) (s : Scr) (text0 : Bytes) (w0 : Nat) :
 end Lemmas
 open Lemmas
 
+/-! ## 3. Terminal level: a token touches the active screen only inside its announced damage -/
+
+/-- row `y` lies in an announced region (all announced regions span the full width) -/
+def dmgRow (t : Term) (tok : Tok) (y : Nat) : Prop := ∃ r ∈ t.damage tok, r.y1 ≤ y ∧ y < r.y2
+
+/-- `t'` has the same active buffer as `t`, the same policy and the same inactive buffer; the
+    active screen is updated only in rows `D` -/
+structure StepU (D : Nat → Prop) (t t' : Term) : Prop where
+  onAlt : t'.onAlt = t.onAlt
+  pol : t'.pol = t.pol
+  upd : Upd D t.scr t'.scr
+  inactive : if t.onAlt then t'.main = t.main else t'.alt = t.alt
+
+namespace Lemmas
+
+theorem scr_setScr (t : Term) (s : Scr) : (t.setScr s).scr = s := by
+  unfold Term.setScr Term.scr
+  cases t.onAlt <;> simp
+
+theorem stepU_refl (D : Nat → Prop) (t : Term) : StepU D t t :=
+  ⟨rfl, rfl, Upd.refl _ _, by split <;> rfl⟩
+
+theorem stepU_setScr {D : Nat → Prop} (t : Term) (s' : Scr) (h : Upd D t.scr s') :
+    StepU D t (t.setScr s') := by
+  refine ⟨?_, ?_, ?_, ?_⟩
+  · unfold Term.setScr; cases t.onAlt <;> simp
+  · unfold Term.setScr; cases t.onAlt <;> simp
+  · rw [scr_setScr]; exact h
+  · unfold Term.setScr; cases h : t.onAlt <;> simp
+
+/-- cursor / rendition / margin updates: the grid and the size are those of the active screen -/
+theorem stepU_setScr_grid {D : Nat → Prop} (t : Term) (s' : Scr) (hg : s'.grid = t.scr.grid)
+    (hw : s'.w = t.scr.w) (hh : s'.h = t.scr.h) : StepU D t (t.setScr s') :=
+  stepU_setScr t s' (Upd.of_grid hg hw hh)
+
+theorem stepU_withScr_grid {D : Nat → Prop} (t : Term) (s' : Scr) (hg : s'.grid = t.scr.grid)
+    (hw : s'.w = t.scr.w) (hh : s'.h = t.scr.h) : StepU D t (t.withScr s').1 :=
+  stepU_setScr_grid t s' hg hw hh
+
+theorem stepU_setKbd (D : Nat → Prop) (t : Term) (k : Kbd) : StepU D t (t.setKbd k) := by
+  unfold Term.setKbd
+  cases h : t.onAlt
+  · refine ⟨by simp [h], by simp, ?_, by simp [h]⟩
+    simp only [Term.scr, h]; exact Upd.refl _ _
+  · refine ⟨by simp [h], by simp, ?_, by simp [h]⟩
+    simp only [Term.scr, h]; exact Upd.refl _ _
+
+theorem stepU_setVFlag (D : Nat → Prop) (t : Term) (i : Nat) (v : Bool) :
+    StepU D t (t.setVFlag i v).1 := ⟨rfl, rfl, Upd.refl _ _, by split <;> rfl⟩
+
+theorem stepU_setVInt (D : Nat → Prop) (t : Term) (i : Nat) (v : Int) :
+    StepU D t (t.setVInt i v).1 := ⟨rfl, rfl, Upd.refl _ _, by split <;> rfl⟩
+
+theorem stepU_setVStr (D : Nat → Prop) (t : Term) (i : Nat) (v : Bytes) :
+    StepU D t (t.setVStr i v).1 := ⟨rfl, rfl, Upd.refl _ _, by split <;> rfl⟩
+
+theorem stepU_dite {D : Nat → Prop} {t : Term} {c : Prop} [Decidable c] {a b : Term × List Ev}
+    (ha : c → StepU D t a.1) (hb : ¬c → StepU D t b.1) : StepU D t (if c then a else b).1 := by
+  split
+  · exact ha ‹_›
+  · exact hb ‹_›
+
+theorem setMargins_grid (s : Scr) (a b : Int) :
+    (s.setMargins a b).grid = s.grid ∧ (s.setMargins a b).w = s.w ∧ (s.setMargins a b).h = s.h := by
+  unfold Scr.setMargins
+  simp only []
+  split <;> simp
+
+/-! ### the damage of each token class, as a set of rows -/
+
+theorem dmgRow_text (t : Term) (st : Bytes) (cp : Nat) (y : Nat) :
+    dmgRow t (.text st cp) y ↔ putRows t.scr y := by
+  simp only [dmgRow, putRows, Term.damage, rowsRegion]
+  cases hw : t.scr.wrap <;> simp <;> omega
+
+theorem dmgRow_region (t : Term) (tok : Tok) (a b : Nat) (y : Nat)
+    (h : t.damage tok = [rowsRegion t.scr a b]) : dmgRow t tok y ↔ (a ≤ y ∧ y < b) := by
+  unfold dmgRow; rw [h]; simp [rowsRegion]
+
+theorem damage_csi_row (t : Term) (ps : List Int) (fin : UInt8)
+    (h : fin = 0x4b ∨ fin = 0x58 ∨ fin = 0x50) :
+    t.damage (.csi 0 ps true fin) = [rowsRegion t.scr t.scr.cy (t.scr.cy + 1)] := by
+  rcases h with h | h | h <;> subst h <;> simp [Term.damage]
+
+theorem damage_csi_J (t : Term) (ps : List Int) :
+    t.damage (.csi 0 ps true 0x4a) = [rowsRegion t.scr 0 t.scr.h] := by
+  simp [Term.damage]
+
+theorem damage_csi_LM (t : Term) (ps : List Int) (fin : UInt8) (h : fin = 0x4c ∨ fin = 0x4d) :
+    t.damage (.csi 0 ps true fin) = [rowsRegion t.scr t.scr.cy (t.scr.bot + 1)] := by
+  rcases h with h | h <;> subst h <;> simp [Term.damage]
+
+theorem damage_csi_ST (t : Term) (ps : List Int) (fin : UInt8) (h : fin = 0x53 ∨ fin = 0x54) :
+    t.damage (.csi 0 ps true fin) = [rowsRegion t.scr t.scr.top (t.scr.bot + 1)] := by
+  rcases h with h | h <;> subst h <;> simp [Term.damage]
+
+/-- close a `StepU D t (if … then … else …).1` goal whose leaves change no cell -/
+macro "stepU_leaves" : tactic =>
+  `(tactic| repeat' (first
+      | exact stepU_refl _ _
+      | exact stepU_setKbd _ _ _
+      | exact stepU_setVFlag _ _ _ _
+      | exact stepU_setVInt _ _ _ _
+      | exact stepU_setVStr _ _ _ _
+      | exact stepU_withScr_grid _ _ rfl rfl rfl
+      | exact stepU_setScr_grid _ _ rfl rfl rfl
+      | (apply stepU_dite <;> intro _)))
+
+/-- **unprefixed CSI**: EL / ED / ECH / DCH touch the announced rows, IL / DL / SU / SD the
+    announced part of the scroll region, everything else (cursor motion, SGR, save / restore,
+    DECSTBM, DA, DSR, unknown finals) changes no cell -/
+theorem stepU_csiPlain (t : Term) (ps : List Int) (fin : UInt8) :
+    StepU (dmgRow t (.csi 0 ps true fin)) t (t.csiPlain ps fin).1 := by
+  unfold Term.csiPlain
+  simp only []
+  stepU_leaves
+  -- EL 0 / 1 / 2
+  · refine stepU_setScr _ _ ((upd_eraseRegionI ..).mono fun y hy => ?_)
+    rw [dmgRow_region _ _ _ _ _ (damage_csi_row t ps fin (Or.inl ‹_›))]
+    simp only [clampNat] at hy; omega
+  · refine stepU_setScr _ _ ((upd_eraseRegionI ..).mono fun y hy => ?_)
+    rw [dmgRow_region _ _ _ _ _ (damage_csi_row t ps fin (Or.inl ‹_›))]
+    simp only [clampNat] at hy; omega
+  · refine stepU_setScr _ _ ((upd_eraseRegionI ..).mono fun y hy => ?_)
+    rw [dmgRow_region _ _ _ _ _ (damage_csi_row t ps fin (Or.inl ‹_›))]
+    simp only [clampNat] at hy; omega
+  -- ED 0 / 1
+  · subst ‹fin = 0x4a›
+    refine stepU_setScr _ _ (Upd.trans ((upd_eraseRegionI ..).mono fun y hy => ?_)
+      ((upd_eraseRegionI ..).mono fun y hy => ?_))
+    all_goals
+      rw [dmgRow_region _ _ _ _ _ (damage_csi_J t ps)]
+      simp only [clampNat, Scr.eraseRegionI, Scr.eraseRegion] at hy; omega
+  · subst ‹fin = 0x4a›
+    refine stepU_setScr _ _ (Upd.trans ((upd_eraseRegionI ..).mono fun y hy => ?_)
+      ((upd_eraseRegionI ..).mono fun y hy => ?_))
+    all_goals
+      rw [dmgRow_region _ _ _ _ _ (damage_csi_J t ps)]
+      simp only [clampNat, Scr.eraseRegionI, Scr.eraseRegion] at hy; omega
+  -- ED 2
+  · subst ‹fin = 0x4a›
+    refine stepU_setScr _ _ (Upd.trans ((upd_eraseRegionI ..).mono fun y hy => ?_)
+      (Upd.of_grid rfl rfl rfl))
+    rw [dmgRow_region _ _ _ _ _ (damage_csi_J t ps)]
+    simp only [clampNat] at hy; omega
+  -- IL
+  · refine stepU_setScr _ _ ((upd_scroll ..).mono fun y hy => ?_)
+    rw [dmgRow_region _ _ _ _ _ (damage_csi_LM t ps fin (Or.inl ‹_›))]; omega
+  -- DL
+  · refine stepU_setScr _ _ ((upd_scroll ..).mono fun y hy => ?_)
+    rw [dmgRow_region _ _ _ _ _ (damage_csi_LM t ps fin (Or.inr ‹_›))]; omega
+  -- SU
+  · refine stepU_setScr _ _ ((upd_scroll ..).mono fun y hy => ?_)
+    rw [dmgRow_region _ _ _ _ _ (damage_csi_ST t ps fin (Or.inl ‹_›))]; omega
+  -- SD
+  · refine stepU_setScr _ _ ((upd_scroll ..).mono fun y hy => ?_)
+    rw [dmgRow_region _ _ _ _ _ (damage_csi_ST t ps fin (Or.inr ‹_›))]; omega
+  -- DCH
+  · refine stepU_setScr _ _ ((upd_dch ..).mono fun y hy => ?_)
+    rw [dmgRow_region _ _ _ _ _ (damage_csi_row t ps fin (Or.inr (Or.inr ‹_›)))]; omega
+  -- ECH
+  · refine stepU_setScr _ _ ((upd_eraseRegionI ..).mono fun y hy => ?_)
+    rw [dmgRow_region _ _ _ _ _ (damage_csi_row t ps fin (Or.inr (Or.inl ‹_›)))]
+    simp only [clampNat] at hy; omega
+  -- DECSTBM
+  · obtain ⟨a, b, c⟩ := setMargins_grid t.scr (pAt ps 0 1 - 1) (pAt ps 1 t.scr.h - 1)
+    exact stepU_setScr_grid _ _ a b c
+
+/-! ### DEC private modes: no cell of either buffer changes; only 1049 changes the active buffer -/
+
+/-- `t'` has the grids, sizes and policy of `t` (what `CSI ? … h/l` preserves) -/
+structure SameGrids (t t' : Term) : Prop where
+  pol : t'.pol = t.pol
+  mg : t'.main.grid = t.main.grid
+  mw : t'.main.w = t.main.w
+  mh : t'.main.h = t.main.h
+  ag : t'.alt.grid = t.alt.grid
+  aw : t'.alt.w = t.alt.w
+  ah : t'.alt.h = t.alt.h
+
+theorem sg_refl (t : Term) : SameGrids t t := ⟨rfl, rfl, rfl, rfl, rfl, rfl, rfl⟩
+
+theorem sg_trans {a b c : Term} (h1 : SameGrids a b) (h2 : SameGrids b c) : SameGrids a c :=
+  ⟨h2.pol.trans h1.pol, h2.mg.trans h1.mg, h2.mw.trans h1.mw, h2.mh.trans h1.mh,
+   h2.ag.trans h1.ag, h2.aw.trans h1.aw, h2.ah.trans h1.ah⟩
+
+theorem sg_setWrap (t : Term) (v : Bool) : SameGrids t (t.setScr { t.scr with wrap := v }) := by
+  unfold Term.setScr Term.scr
+  cases t.onAlt <;> constructor <;> simp
+
+theorem sg_switchScreen (t : Term) (v : Bool) : SameGrids t (t.switchScreen v).1 := by
+  unfold Term.switchScreen
+  split
+  · exact sg_refl _
+  · constructor <;> simp
+
+theorem sg_dite {t : Term} {c : Prop} [Decidable c] {a b : Term × List Ev}
+    (ha : c → SameGrids t a.1) (hb : ¬c → SameGrids t b.1) : SameGrids t (if c then a else b).1 := by
+  split
+  · exact ha ‹_›
+  · exact hb ‹_›
+
+theorem sg_decMode (t : Term) (p : Int) (v : Bool) : SameGrids t (t.decMode p v).1 := by
+  unfold Term.decMode
+  repeat' (first
+    | exact sg_refl _ | exact sg_setWrap _ _ | exact sg_switchScreen _ _
+    | exact ⟨rfl, rfl, rfl, rfl, rfl, rfl, rfl⟩
+    | (apply sg_dite <;> intro _))
+
+theorem decModes_cons (t : Term) (v : Bool) (p : Int) (ps : List Int) :
+    t.decModes v (p :: ps) =
+      (((t.decMode p v).1.decModes v ps).1, (t.decMode p v).2 ++ ((t.decMode p v).1.decModes v ps).2) := rfl
+
+theorem sg_decModes (t : Term) (v : Bool) (ps : List Int) : SameGrids t (t.decModes v ps).1 := by
+  induction ps generalizing t with
+  | nil => exact sg_refl _
+  | cons p ps ih =>
+    rw [decModes_cons]
+    exact sg_trans (sg_decMode t p v) (ih _)
+
+theorem decMode_onAlt (t : Term) (p : Int) (v : Bool) (hp : p ≠ 1049) :
+    (t.decMode p v).1.onAlt = t.onAlt := by
+  unfold Term.decMode
+  repeat' split
+  all_goals first | rfl | contradiction | skip
+  unfold Term.setScr; cases t.onAlt <;> simp
+
+theorem decModes_onAlt (t : Term) (v : Bool) (ps : List Int) (h : (1049 : Int) ∉ ps) :
+    (t.decModes v ps).1.onAlt = t.onAlt := by
+  induction ps generalizing t with
+  | nil => rfl
+  | cons p ps ih =>
+    rw [decModes_cons]
+    simp only [List.mem_cons, not_or] at h
+    exact (ih _ h.2).trans (decMode_onAlt t p v (Ne.symm h.1))
+
+/-- the token is `CSI ? … h` or `CSI ? … l` (DECSET / DECRST), the only tokens that can switch
+    buffers -/
+def isDecset : Tok → Prop
+  | .csi pfx _ clean fin => pfx = 0x3f ∧ clean = true ∧ (fin = 0x68 ∨ fin = 0x6c)
+  | _ => False
+
+instance (tok : Tok) : Decidable (isDecset tok) := by
+  cases tok <;> unfold isDecset <;> infer_instance
+
+theorem damage_csi_other (t : Term) (pfx : UInt8) (ps : List Int) (fin : UInt8) (h0 : pfx ≠ 0)
+    (h : ¬ (pfx = 0x3f ∧ (fin = 0x68 ∨ fin = 0x6c))) :
+    t.damage (.csi pfx ps true fin) = [] := by
+  have : ¬ (pfx = 0x3f ∧ (fin = 0x68 ∨ fin = 0x6c) ∧ ps.contains 1049 = true) :=
+    fun hh => h ⟨hh.1, hh.2.1⟩
+  simp [Term.damage, h0, this]
+
+/-- **every token other than DECSET / DECRST** keeps the active buffer active and changes cells
+    of the active screen only in announced rows (rows of the screen must be well formed for the
+    span policy's insertion after a wide character) -/
+theorem stepU_apply (cw : Nat → Nat) (t : Term) (tok : Tok) (hd : ¬ isDecset tok)
+    (hwf : RowsWF t.scr) : StepU (dmgRow t tok) t (Term.apply cw t tok).1 := by
+  cases tok with
+  | text st cp =>
+    refine stepU_setScr _ _ ((upd_put t.pol t.scr st (cw cp) hwf).mono fun y hy => ?_)
+    exact (dmgRow_text t st cp y).2 hy
+  | ctl b =>
+    simp only [Term.apply]
+    stepU_leaves
+    · -- LF
+      refine stepU_setScr _ _ (Upd.trans (Upd.of_grid (s' := ({ t.scr with cx := 0 } : Scr)) rfl rfl rfl)
+        ((upd_lineDown _).mono fun y hy => ?_))
+      have : t.damage (.ctl b) = [rowsRegion t.scr t.scr.top (t.scr.bot + 1)] := by
+        simp [Term.damage, ‹b = 10›]
+      rw [dmgRow_region _ _ _ _ _ this]
+      exact ⟨hy.1, Nat.lt_succ_of_le hy.2⟩
+    · -- FF
+      refine stepU_setScr _ _ ((upd_lineDown _).mono fun y hy => ?_)
+      have : t.damage (.ctl b) = [rowsRegion t.scr t.scr.top (t.scr.bot + 1)] := by
+        simp [Term.damage, ‹b = 12›]
+      rw [dmgRow_region _ _ _ _ _ this]
+      exact ⟨hy.1, Nat.lt_succ_of_le hy.2⟩
+  | esc inter fin =>
+    simp only [Term.apply]
+    stepU_leaves
+    · -- IND
+      refine stepU_setScr _ _ ((upd_lineDown _).mono fun y hy => ?_)
+      have hi : inter = [] := by simpa using ‹¬ inter ≠ []›
+      have : t.damage (.esc inter fin) = [rowsRegion t.scr t.scr.top (t.scr.bot + 1)] := by
+        simp [Term.damage, hi, ‹fin = 0x44›]
+      rw [dmgRow_region _ _ _ _ _ this]
+      exact ⟨hy.1, Nat.lt_succ_of_le hy.2⟩
+    · -- RI
+      refine stepU_setScr _ _ ((upd_lineUp _).mono fun y hy => ?_)
+      have hi : inter = [] := by simpa using ‹¬ inter ≠ []›
+      have : t.damage (.esc inter fin) = [rowsRegion t.scr t.scr.top (t.scr.bot + 1)] := by
+        simp [Term.damage, hi, ‹fin = 0x4d›]
+      rw [dmgRow_region _ _ _ _ _ this]
+      exact ⟨hy.1, Nat.lt_succ_of_le hy.2⟩
+  | csi pfx ps clean fin =>
+    simp only [Term.apply]
+    cases clean
+    · exact stepU_refl _ _
+    · simp only [if_true]
+      unfold Term.csi
+      by_cases h0 : pfx = 0
+      · subst h0
+        simp only [if_true]
+        exact stepU_csiPlain t ps fin
+      · simp only [if_neg h0]
+        have hd' : ¬ (pfx = 0x3f ∧ (fin = 0x68 ∨ fin = 0x6c)) := fun hh => hd ⟨hh.1, rfl, hh.2⟩
+        stepU_leaves
+        · exact absurd ⟨‹pfx = 0x3f›, Or.inl ‹fin = 0x68›⟩ hd'
+        · exact absurd ⟨‹pfx = 0x3f›, Or.inr ‹fin = 0x6c›⟩ hd'
+        · split
+          · split
+            · exact stepU_setVInt _ _ _ _
+            · exact stepU_refl _ _
+          · exact stepU_refl _ _
+  | osc n pl wf =>
+    simp only [Term.apply]
+    stepU_leaves
+  | dcs => exact stepU_refl _ _
+
+end Lemmas
+open Lemmas
+
 end TM.C10
